@@ -8,6 +8,8 @@ CONSTANTS
   BatchDisabled = FALSE
   FixNotif = TRUE
   FixNonRequest = FALSE
+  FixLongWs = FALSE
+  FarChoices = {FALSE}
 INIT Init
 NEXT Next
 VIEW view
